@@ -15,9 +15,17 @@ mixed up:
   ...-accepted-outside-check-coverage
         the changed position is not an input of the check computation at all (ca.bn program account,
         es.cif type letter, in_.epic prefix letters, se.personnummer century digits, eu.at_02 business code)
+Options: the promise is about the format, not about one way of calling validate(): every boolean keyword option
+of validate() (found by inspect.signature: isbn convert, iban check_country, meid strip_check_digit, isan
+strip/add_check_digits) is swept both ways; a number that validate() accepts under an option value must have its
+whole neighbourhood rejected under the same option value (site suffix [option=value] for non-default values).
+Seeds: besides the corpus the length-/letter-extremal valid numbers of common.extremal_numbers() (IBANs with a
+letter wherever the country structure admits one, 128 character numbers of the generic algorithms): substitutions at
+the most significant positions of the longest admissible numbers are where table / zip truncation shows.
 The neighbourhood relation is symmetric, therefore a pair (v, v') of valid numbers found from an
 unprotected seed v (e.g. a white listed number) is reported from the side of the protected number v'.
 """
+import inspect
 import itertools
 import os
 import random
@@ -133,6 +141,36 @@ def _val(e):
     return lambda s: _chk.call(mod.validate, s, **kw)
 
 
+def bool_options(modname):
+    """names and defaults of the boolean keyword options of validate()"""
+    try:
+        ps = list(inspect.signature(common.module(modname).validate).parameters.values())[1:]
+    except (TypeError, ValueError):
+        return []
+    return [(p.name, p.default) for p in ps if isinstance(p.default, bool)]
+
+
+def option_sets(e):
+    """the entry's own keyword arguments first, then every boolean option of validate() flipped (one at a time)"""
+    base = dict(e['kwargs'])
+    out = [base]
+    defaults = dict(bool_options(e['module']))
+    full = lambda kw: dict(defaults, **kw)     # noqa: E731
+    elsewhere = [full(x['kwargs']) for x in ENTRIES if x['module'] == e['module'] and x is not e]
+    for name, default in bool_options(e['module']):
+        kw = dict(base)
+        kw[name] = not base.get(name, default)
+        if kw not in out and full(kw) not in elsewhere:     # (another entry of the module sweeps that value)
+            out.append(kw)
+    return out
+
+
+def opt_label(modname, kw):
+    """'' for the defaults, else 'name=value,...' of the options that differ from validate()'s defaults"""
+    defaults = dict(bool_options(modname))
+    return ','.join('%s=%r' % (k, kw[k]) for k in sorted(kw) if not (k in defaults and defaults[k] is kw[k]))
+
+
 def neighbours(n, transpositions):
     """yield (kind, position, variant)"""
     for i, ch in enumerate(n):
@@ -191,12 +229,15 @@ def entry_job(arg):
     dist = {'numbers': 0, 'corpus_numbers': 0, 'synthesised_numbers': 0, 'substitutions': 0, 'transpositions': 0,
             'rejected': 0, 'rejected_by_non_validation_exception': 0, 'accepted': 0,
             'accepted_pairs_both_unprotected_skipped': 0, 'unprotected_seed_numbers': 0}
-    seeds = []
-    for v in common.valid_numbers(modname):
-        o = val(v)
-        if o[0] == 'ok' and isinstance(o[1], str) and o[1] not in seeds and val(o[1])[:2] == ('ok', o[1]):
-            if e['seed'] is None or e['seed'](o[1]):
-                seeds.append(o[1])
+    def canonical(vs):
+        out = []
+        for v in vs:
+            o = val(v)
+            if o[0] == 'ok' and isinstance(o[1], str) and o[1] not in out and val(o[1])[:2] == ('ok', o[1]):
+                if e['seed'] is None or e['seed'](o[1]):
+                    out.append(o[1])
+        return out
+    seeds = canonical(common.valid_numbers(modname))
     if not seeds:
         return {'label': label, 'dist': dist, 'cases': 0, 'nontrivial': 0, 'sites': [], 'samples': []}
     if tier == 'quick':
@@ -204,59 +245,80 @@ def entry_job(arg):
         nsynth, cap = 600, 600
     else:
         nsynth, cap = 6000, 6000
+    # length-/letter-extremal valid numbers go first (they are never cut by the caps)
+    extremal = [x for x in canonical(common.extremal_numbers(modname)) if x not in seeds]
+    dist['extremal_numbers'] = len(extremal)
+    seeds = extremal + seeds
     pool = list(seeds)
     cases = synthesise(rng, e, val, pool, seeds, nsynth)
     numbers = seeds + pool[len(seeds):][:max(0, cap - len(seeds))]
-    dist['corpus_numbers'] = len(seeds)
+    dist['corpus_numbers'] = len(seeds) - len(extremal)
     dist['synthesised_numbers'] = len(numbers) - len(seeds)
     generic = e['generic'] or (lambda n: True)
     covered = e['covered'] or _all
     nontrivial = 0
     samples = []
-    for n in numbers:
-        dist['numbers'] += 1
-        gn = generic(n)
-        if not gn:
-            dist['unprotected_seed_numbers'] += 1
-        for kind, i, v in neighbours(n, e['T']):
-            cases += 1
-            nontrivial += 1
-            dist[kind + 's'] += 1
-            o = val(v)
-            if kind == 'substitution':
-                k = 'letter_substitutions' if n[i] not in DIGITS else 'digit_substitutions'
-                dist[k] = dist.get(k, 0) + 1
-            if o[0] != 'ok':
-                dist['rejected'] += 1
-                dist['rejected_with:' + o[1]] = dist.get('rejected_with:' + o[1], 0) + 1
-                if o[0] == 'exc':
-                    dist['rejected_by_non_validation_exception'] += 1
-                continue
-            dist['accepted'] += 1
-            gv = generic(v)
-            # orient the pair: report from the side of the number that is protected by the generic check
-            src, dst = n, v
-            if not gn:
-                if not gv:
-                    dist['accepted_pairs_both_unprotected_skipped'] += 1
+    mod = common.module(modname)
+    optsets = option_sets(e)
+    dist['option_sets'] = len(optsets)
+    for oi, kw in enumerate(optsets):
+        lab = opt_label(modname, kw)
+        sfx = '[%s]' % lab if lab else ''
+
+        def valk(s, kw=kw):
+            return _chk.call(mod.validate, s, **kw)
+        # the non-base option values are swept over the corpus, the extremal numbers and the first synthesised ones
+        nums = numbers if oi == 0 else numbers[:len(seeds) + (150 if tier == 'quick' else 1500)]
+        for n in nums:
+            if oi:
+                if valk(n)[0] != 'ok':      # not a valid number under this option value
+                    dist['not_valid_under_option'] = dist.get('not_valid_under_option', 0) + 1
                     continue
-                src, dst = v, n
-            both = generic(src) and generic(dst)
-            positions = {i, i + 1} if kind == 'transposition' else {i}
-            if not both:
-                suffix = '-via-alternative-scheme'
-            elif not (positions & covered(src)):
-                suffix = '-outside-check-coverage'
+                dist['numbers_under_other_option_values'] = dist.get('numbers_under_other_option_values', 0) + 1
             else:
-                suffix = ''
-            rel = ('single-substitution-accepted' if kind == 'substitution' else 'adjacent-transposition-accepted') + suffix
-            col.add(_chk.make_case(
-                modname, 'validate', [dst], _chk.fmt_outcome(val(dst)),
-                'ValidationError: %s at position %d of the valid number %r (%s)' % (kind, i, src, e['via']),
-                _chk.value_site(modname, 'validate', rel), rel, kwargs=e['kwargs'], number=src, label=label))
-        if len(samples) < 2:
-            samples.append({'label': label, 'module': modname, 'number': n, 'origin': 'corpus' if n in seeds else 'synthesised',
-                            'neighbours': sum(1 for _ in neighbours(n, e['T'])), 'transpositions_claimed': e['T']})
+                dist['numbers'] += 1
+            gn = generic(n)
+            if not gn and not oi:
+                dist['unprotected_seed_numbers'] += 1
+            for kind, i, v in neighbours(n, e['T']):
+                cases += 1
+                nontrivial += 1
+                dist[kind + 's'] += 1
+                o = valk(v)
+                if kind == 'substitution':
+                    k = 'letter_substitutions' if n[i] not in DIGITS else 'digit_substitutions'
+                    dist[k] = dist.get(k, 0) + 1
+                if o[0] != 'ok':
+                    dist['rejected'] += 1
+                    dist['rejected_with:' + o[1]] = dist.get('rejected_with:' + o[1], 0) + 1
+                    if o[0] == 'exc':
+                        dist['rejected_by_non_validation_exception'] += 1
+                    continue
+                dist['accepted'] += 1
+                gv = generic(v)
+                # orient the pair: report from the side of the number that is protected by the generic check
+                src, dst = n, v
+                if not gn:
+                    if not gv:
+                        dist['accepted_pairs_both_unprotected_skipped'] += 1
+                        continue
+                    src, dst = v, n
+                both = generic(src) and generic(dst)
+                positions = {i, i + 1} if kind == 'transposition' else {i}
+                if not both:
+                    suffix = '-via-alternative-scheme'
+                elif not (positions & covered(src)):
+                    suffix = '-outside-check-coverage'
+                else:
+                    suffix = ''
+                rel = ('single-substitution-accepted' if kind == 'substitution' else 'adjacent-transposition-accepted') + suffix
+                col.add(_chk.make_case(
+                    modname, 'validate', [dst], _chk.fmt_outcome(valk(dst)),
+                    'ValidationError: %s at position %d of the valid number %r (%s)' % (kind, i, src, e['via']),
+                    _chk.value_site(modname, 'validate', rel + sfx), rel, kwargs=kw, number=src, label=label))
+            if len(samples) < 2 and not oi:
+                samples.append({'label': label, 'module': modname, 'number': n, 'origin': 'extremal' if n in extremal else 'corpus' if n in seeds else 'synthesised',
+                                'neighbours': sum(1 for _ in neighbours(n, e['T'])), 'transpositions_claimed': e['T']})
     if len(numbers) > len(seeds):
         n = numbers[-1]
         samples.append({'label': label, 'module': modname, 'number': n, 'origin': 'synthesised',
@@ -286,8 +348,11 @@ def search(seed, tier):
     return {
         'cases': cases,
         'distinct_nontrivial': nontrivial,
-        'rule': ('for each of the %d formats: every canonical valid corpus number + synthesised valid numbers (class '
+        'rule': ('for each of the %d formats: every canonical valid corpus number + the length-/letter-extremal valid '
+                 'numbers of common.extremal_numbers() + synthesised valid numbers (class '
                  'preserving mutation of 1..k positions, check position(s) repaired by brute force against validate); '
+                 'under the options of the entry and with every boolean option of validate() flipped (numbers that '
+                 'are valid under that option value); '
                  'exhaustive neighbourhood: position x other character of the same class (digit/upper/lower), and '
                  'adjacent swaps of different digits where the property promises them.  Every neighbour of a valid '
                  'number is a non-trivial case (cases additionally counts the validate calls of the synthesiser).'
